@@ -99,7 +99,7 @@ def hSyncNoLock (f : FsCfg) (env : Env) (h : Handle) : M Handle := do
   | some (buf, cur) =>
     if h.bufClosed then
       -- `writeBuf.Size()` / `Seek` fail inside `Update`, which returns with the writer open
-      fun w => ({ w with stuck := true }, .error .closed)
+      M.wedge .closed
     else
     let info := { h.info with size := buf.length }
     let src : Src :=
